@@ -33,7 +33,7 @@ MIN_BUDGET = 120
 HANG_IS_VIOLATION = False     # hangs are detected per site, inside run()
 
 TIERS = {
-    'quick': {'runs': 2500, 'classes': 8, 'budget_s': 80},
+    'quick': {'runs': 1500, 'classes': 8, 'budget_s': 80},
     'thorough': {'runs': 80000, 'classes': 32, 'budget_s': 1100},
 }
 
@@ -63,7 +63,7 @@ def gen_case(streams, tier):
     script = gen.gen_script(g, cfg)
     f = streams['faults']
     sites = enumerate_sites(script, f)
-    cap = 60 if tier == 'quick' else 120
+    cap = 200 if tier == 'quick' else 1000
     if len(sites) > cap:
         # keep every class represented, then sample
         by = {}
